@@ -19,7 +19,7 @@ from simkit.core import RunResult, ddmin_list, short_hash
 LEVEL = {"C10": "exploration", "C03": "exploration"}
 TIERS = {"C10": (9000, 150, 300000, 1200), "C03": (5000, 150, 150000, 1200)}
 PROBES = {
-    "C10": ["overlap_batch_hit", "overlap_changed_values", "empty_batch", "single_point_batch",
+    "C10": ["overlap_batch_hit", "overlap_changed_values", "empty_batch", "revision_only_batch", "single_point_batch",
             "update_params_false", "refit_equivalence_checked", "no_param_update_checked",
             "update_predict_checked", "update_predict_default_cv", "update_predict_multi_step",
             "update_before_any_fh", "pickle_midway", "ensemble_parallel_update",
@@ -27,7 +27,8 @@ PROBES = {
             "batching_invariance_checked", "labels_after_stale_checked",
             "same_integers_other_kind", "frozen_model_same_time_points_checked",
             "components_reused_elsewhere", "remembered_absolute_horizon_reused",
-            "labels_after_update_predict_checked", "horizon_remembered_across_update_predict"],
+            "labels_after_update_predict_checked", "horizon_remembered_across_update_predict",
+            "fitted_again_on_earlier_data"],
     "C03": ["gapped_fh", "absolute_fh", "fh_at_fit", "fh_reused_across_cutoffs",
             "predict_after_update", "shifted_twin_checked", "gapped_vs_contiguous_checked",
             "exogenous_data", "stale_batch", "failed_call_injected", "unsorted_fh", "fh_as_index",
@@ -35,7 +36,8 @@ PROBES = {
             "int_index_nonzero_origin", "negative_origin", "composite_depth2",
             "tuned_forecaster", "same_integers_other_kind", "components_reused_elsewhere",
             "frozen_model_same_time_points_checked", "remembered_absolute_horizon_reused",
-            "labels_after_update_predict_checked", "horizon_remembered_across_update_predict"],
+            "labels_after_update_predict_checked", "horizon_remembered_across_update_predict",
+            "fitted_again_on_earlier_data"],
 }
 FAULT_KINDS = {
     "C10": ["overlap_batch", "empty_batch", "pickle_roundtrip", "schedule_ooo",
@@ -122,8 +124,17 @@ def generate(prop, rng, tier):
                     {"kind": "naive", "strategy": rng.choice(["last", "mean", "drift"]), "sp": 1,
                      "window_length": None},
                     {"kind": "trend", "degree": 1, "with_intercept": True}])}
+    abs_stack = prop == "C10" and rng.random() < 0.04
+    if abs_stack:
+        # stacking over models that are functions of time alone, fitted with an ABSOLUTE horizon:
+        # the same time points stay requested while small updates move the cutoff
+        spec = {"kind": "stack", "members": [{"kind": "trend", "degree": 1, "with_intercept": True},
+                                             {"kind": "trend", "degree": 2, "with_intercept": True}],
+                "final": "stub", "n_jobs": rng.choice([None, 2])}
     fh_fit_needed = C.needs_fh_at_fit(spec)
     fit_steps = _gen_steps(rng)
+    if abs_stack:
+        fit_steps = sorted(rng.sample(range(4, 9), rng.randint(1, 3)))
     max_h = 8
     n0 = C.min_train_len(spec, max(fit_steps) if fh_fit_needed else max_h) + rng.randint(0, 12 if not big else 40)
     index_kind = rng.choice(["range", "range", "range", "int", "int"])
@@ -137,6 +148,14 @@ def generate(prop, rng, tier):
     n_ops = rng.randint(2, 7 if not big else 12)
     total = n0
     fh_known = ops[0]["fh"] is not None
+    if abs_stack:
+        ops[0]["fh"] = {"steps": fit_steps, "abs": True}
+        for _ in range(rng.randint(1, 3)):
+            ops.append({"op": "update", "take": 1, "overlap": rng.choice([0, 0, 1]), "change": False,
+                        "up": rng.random() < 0.25})
+            ops.append({"op": "predict", "fh": None})
+            total += 1
+        n_ops = 0
     for _ in range(n_ops):
         r = rng.random()
         fhspec = None
@@ -150,6 +169,13 @@ def generate(prop, rng, tier):
                 fhspec = dict(fhspec, same_ints=True)
             ops.append({"op": "predict", "fh": fhspec})
             fh_known = fh_known or fhspec is not None
+            if prop == "C10" and fh_known and rng.random() < 0.15:
+                # ... then a batch that only REVISES the latest observations (it ends at the
+                # cutoff, nothing new), and the same forecast is asked for again
+                ops.append({"op": "update", "take": 0, "overlap": rng.choice([1, 2, 4]), "change": True,
+                            "up": rng.random() < 0.3, "revise": True})
+                ops.append({"op": "predict", "fh": fhspec if fhspec is None or not fhspec.get("same_ints")
+                            else None})
         elif r < 0.64:
             take = rng.choice([0, 1, 1, 2, 3, 4, 5, 8]) if rng.random() < 0.9 else 0
             ops.append({"op": "update", "take": take,
@@ -186,6 +212,10 @@ def generate(prop, rng, tier):
         if rng.random() < 0.12:
             ops.append({"op": "bad_call", "kind": rng.choice(["faulty_cv", "faulty_cv", "insample_X"]),
                         "after": rng.randint(0, 3), "take": rng.choice([6, 8])})
+    if rng.random() < 0.12 and len(ops) >= 3 and not abs_stack:
+        # the same forecaster object is fitted AGAIN later on - on the original training series,
+        # which by then ends before the current cutoff (everything learnt since is forgotten)
+        ops.insert(rng.randint(2, len(ops)), {"op": "fit", "n": n0, "fh": ops[0]["fh"], "again": True})
     if spec["kind"] in ("ensemble", "stack", "ttf", "mux") and rng.random() < 0.3:
         # the user goes on using the component objects they passed in (fits them elsewhere)
         ops.insert(rng.randint(1, len(ops)), {"op": "reuse", "start": rng.randint(0, 5),
@@ -195,7 +225,7 @@ def generate(prop, rng, tier):
     seen_upd = False
     for o in ops:
         seen_upd = seen_upd or o["op"] == "upd"
-        if o["op"] == "update" and o["take"] == 0 and (
+        if o["op"] == "update" and o["take"] == 0 and not o.get("revise") and (
                 seen_upd or spec["kind"] in ("ttf", "stack", "ensemble", "mux", "gscv", "theta")):
             o["take"] = 1
     exog = False
@@ -486,7 +516,7 @@ class Engine:
 
         def do(actor):
             b = actor.batch(0, n0)
-            fh = _mk_fh(fhs, None, actor.kind) if fhs else None
+            fh = _mk_fh(fhs, actor.label(n0 - 1), actor.kind) if fhs else None
             out = actor.f.fit(b, X=actor.xbatch(b), fh=fh)
             actor.seen = {}
             actor.seenX = {}
@@ -494,10 +524,12 @@ class Engine:
             actor.pos = n0
             actor.cut = n0 - 1
             actor.fh_steps = list(fhs["steps"]) if fhs else None
-            actor.fh_abs = False
+            actor.fh_abs = bool(fhs and fhs.get("abs"))
             actor.fh_cut = n0 - 1
             actor.fitted = True
             return out
+        if op.get("again") and self.a.fitted and self.a.cut is not None and self.a.cut > n0 - 1:
+            self.res.probe("fitted_again_on_earlier_data")
         outs = self.call("fit", do)
         if outs is None:
             return
@@ -527,7 +559,7 @@ class Engine:
 
     def _update_args(self, actor, op):
         take, ov = op["take"], min(op.get("overlap", 0), actor.pos)
-        if take == 0:
+        if take == 0 and not op.get("revise"):
             ov = 0
         start, stop = actor.pos - ov, actor.pos + take
         b = actor.batch(start, stop, self.scen["series"]["seed"] + start if op.get("change") else None, ov)
@@ -564,6 +596,8 @@ class Engine:
                 self.res.probe("empty_batch")
                 self.res.fault("empty_batch")
                 self.fault_events += 1
+            if len(b) and op["take"] == 0:
+                self.res.probe("revision_only_batch")
             if len(b) == 1:
                 self.res.probe("single_point_batch")
             if not up:
@@ -1123,7 +1157,7 @@ class Engine:
                     twin = _clone(a.f.best_forecaster_)
                     fit_fh = _mk_fh(self.fit_fh, None, a.kind) if self.fit_fh else None
                     twin.fit(a.seen_series(), fh=fit_fh)
-                    q = twin.predict(_mk_fh(fhs, None, a.kind))
+                    q = twin.predict(self._twin_fh(fhs))
                 except Exception as e:  # noqa
                     self.note("twin_raised", type(e).__name__)
                     return
@@ -1143,7 +1177,7 @@ class Engine:
                     s2 = sched.Scheduler("fifo", 0)
                     with sched.scenario_schedule(s2):
                         twin.fit(a.seen_series(), X=a.seen_X(), fh=fit_fh)
-                        q = twin.predict(_mk_fh(fhs, None, a.kind))
+                        q = twin.predict(self._twin_fh(fhs))
                 except Exception as e:  # noqa
                     self.note("twin_raised", type(e).__name__)
                     return
@@ -1165,7 +1199,7 @@ class Engine:
                     s2 = sched.Scheduler("fifo", 0)
                     with sched.scenario_schedule(s2):
                         g.update(union, update_params=True)
-                        q = g.predict(_mk_fh(fhs, None, a.kind))
+                        q = g.predict(self._twin_fh(fhs))
                 except Exception as e:  # noqa
                     self.note("batching_twin_raised", type(e).__name__)
                     return
@@ -1185,7 +1219,7 @@ class Engine:
                     union = pd.concat(self.since_refit)
                     union = union[~union.index.duplicated(keep="last")].sort_index()
                     g.update(union, X=a.xbatch(union), update_params=False)
-                    q = g.predict(_mk_fh(fhs, None, a.kind))
+                    q = g.predict(self._twin_fh(fhs))
                     params_now = _fitted_params(a.f)
                 except Exception as e:  # noqa
                     self.note("noparam_twin_raised", type(e).__name__)
@@ -1203,6 +1237,14 @@ class Engine:
                        "update_params=False", op="update")
             elif _time_only(self.spec) and a.kind != "period":
                 self.check_frozen_time_only(p, steps)
+
+    def _twin_fh(self, fhs):
+        """The horizon argument for a twin's predict: the given steps - unless the forecaster was
+        fitted with an absolute horizon it depends on, then (like the forecaster under test) the
+        twin answers for the remembered time points."""
+        if self.fit_fh and self.fit_fh.get("abs") and C.needs_fh_at_fit(self.spec):
+            return None
+        return _mk_fh(fhs, None, self.a.kind)
 
     def check_frozen_time_only(self, p, steps):
         """A model that is a function of (fitted parameters, time point) only: with the
@@ -1435,7 +1477,9 @@ def _time_only(spec):
         # (smoothing models: with frozen parameters the fitted state is that of the last fit,
         # and the forecast for a time point is an extrapolation from there)
         return True
-    if k == "ensemble":
+    if k in ("ensemble", "stack"):
+        # (stacking: the meta-learner is a function of the members' forecasts and is left
+        # untouched by updates)
         return all(_time_only(m) for m in spec["members"])
     if k == "mux":
         return _time_only(spec["members"][spec["selected"]])
